@@ -11,7 +11,7 @@ use super::Info;
 use super::InterfaceDescription;
 
 /// `org.varlink.service` interface methods.
-#[derive(Debug, Serialize, Deserialize)]
+#[derive(Debug, Serialize)]
 #[serde(tag = "method", content = "parameters")]
 pub enum Method<'a> {
     /// Get information about the Varlink service.
@@ -23,6 +23,85 @@ pub enum Method<'a> {
         /// The interface to get the description for.
         interface: &'a str,
     },
+}
+
+impl<'de: 'a, 'a> Deserialize<'de> for Method<'a> {
+    fn deserialize<D>(deserializer: D) -> core::result::Result<Self, D::Error>
+    where
+        D: serde::Deserializer<'de>,
+    {
+        // A method without parameters can be called with an absent or `null` `parameters` member
+        // or with an empty object; a unit variant would refuse the latter.
+        struct NoParams;
+
+        impl<'de> Deserialize<'de> for NoParams {
+            fn deserialize<D>(deserializer: D) -> core::result::Result<Self, D::Error>
+            where
+                D: serde::Deserializer<'de>,
+            {
+                struct Visitor;
+
+                impl<'de> serde::de::Visitor<'de> for Visitor {
+                    type Value = NoParams;
+
+                    fn expecting(
+                        &self,
+                        formatter: &mut core::fmt::Formatter<'_>,
+                    ) -> core::fmt::Result {
+                        formatter.write_str("no parameters")
+                    }
+
+                    fn visit_none<E>(self) -> core::result::Result<Self::Value, E> {
+                        Ok(NoParams)
+                    }
+
+                    fn visit_unit<E>(self) -> core::result::Result<Self::Value, E> {
+                        Ok(NoParams)
+                    }
+
+                    fn visit_some<D>(
+                        self,
+                        deserializer: D,
+                    ) -> core::result::Result<Self::Value, D::Error>
+                    where
+                        D: serde::Deserializer<'de>,
+                    {
+                        deserializer.deserialize_map(self)
+                    }
+
+                    fn visit_map<A>(self, mut map: A) -> core::result::Result<Self::Value, A::Error>
+                    where
+                        A: serde::de::MapAccess<'de>,
+                    {
+                        match map.next_key::<serde::de::IgnoredAny>()? {
+                            None => Ok(NoParams),
+                            Some(_) => Err(serde::de::Error::custom(
+                                "unexpected parameters for a method without parameters",
+                            )),
+                        }
+                    }
+                }
+
+                deserializer.deserialize_option(Visitor)
+            }
+        }
+
+        #[derive(Deserialize)]
+        #[serde(tag = "method", content = "parameters")]
+        enum Helper<'a> {
+            #[serde(rename = "org.varlink.service.GetInfo")]
+            GetInfo(NoParams),
+            #[serde(rename = "org.varlink.service.GetInterfaceDescription")]
+            GetInterfaceDescription { interface: &'a str },
+        }
+
+        Ok(match Helper::deserialize(deserializer)? {
+            Helper::GetInfo(_) => Method::GetInfo,
+            Helper::GetInterfaceDescription { interface } => {
+                Method::GetInterfaceDescription { interface }
+            }
+        })
+    }
 }
 
 /// `org.varlink.service` interface replies.
